@@ -41,6 +41,15 @@ NA = {
            'io.StringIO, the C csv module and open(); the engine has no string theory and CrossHair realises at those C '
            'boundaries (Not confirmed) -- see DESIGN.md section 6',
 }
+NOTES = {
+    'C11': ' NOT covered by this check: the pickle sentence of C11 (pickling a context or lattice in the same or another '
+           'interpreter process, recursion depth for thousands of concepts): pickle is C code over the real bitsets class '
+           'registry, the symbolic proxies cannot pass through it, and lattice sizes in the thousands are outside any '
+           'symbolic bound.',
+    'C17': ' Hash randomisation is modelled (every iteration order of every set built by repository code), which '
+           'quantifies over a superset of what PYTHONHASHSEED can produce; the literal multi-process experiment is only run '
+           'to replay counterexamples and to validate sampled corpus items (5 seeds).',
+}
 ALL = [f'C{i:02d}' for i in range(1, 21)]
 
 
@@ -65,7 +74,7 @@ def main():
             'level_note': 'Trusted: CPython, z3 5.1.0, the symx engine (path explorer, merge-interpreter, symbolic model '
                           'of the third-party bitsets package - validated against the real library and the repo fixtures '
                           'on every run by checks/selftest.py), the declarative FCA specs/oracle. Bounds per unit are '
-                          'listed in the evidence file.',
+                          'listed in the evidence file.' + NOTES.get(pid, ''),
             'technique': tech,
         })
     na = [{'property_id': p, 'reason': r} for p, r in sorted(NA.items())]
